@@ -53,6 +53,27 @@ add("C08", "model_checking",
     "input is checked untouched, provenance and counts are checked; from_config(cfg with filters) is compared with the hand-applied chain.",
     "State key drops the append-only provenance log (checked per transition); grid 3, <=6 mazes.", "5/C08")
 
+add("C04", "model_checking",
+    "explicit-state BFS over histories of RNG / library use with snapshot+restore of all global state; differential oracle against the initial state",
+    "Every history up to depth 2 (thorough 3) over 14 operations (draws from and re-seeds of python random / numpy global / numpy Generator / torch, other "
+    "config constructions, other generate / from_config calls, shuffling tokenisations, generating the observed config itself, the caller being a "
+    "multiprocessing child) is executed; in every distinct global state every observed configuration (all generators x kwargs x seeds, endpoint options, "
+    "filters) is generated and must be bit-identical to the generation from the initial state; from_config(no cache) must equal generate + reference "
+    "filters and leave the cfg unchanged; fingerprints are recomputed in fresh interpreters with PYTHONHASHSEED in {0,1,2,4242,random}.",
+    "Global state = the RNGs and module globals listed in the evidence; grid 3-4, n_mazes 3-6.", "5/C04")
+add("C14", "exploration",
+    "bounded-exhaustive enumeration of all 4096 vocabulary positions, all single/pair/triple token and id sequences over boundary alphabets, all unknown-token/id "
+    "placements and all 150 legacy tokenizers against a literal reference layout pinned by SHA-256",
+    "Every vocabulary position against the literally re-stated block layout (and a pinned SHA-256), VOCAB_TOKEN_TO_INDEX inverse, every single id/token, 64^2 pairs "
+    "and 16^3 triples (320^2 / 48^3 thorough) through all encode/decode forms, unknown tokens/ids at every position, all 1225 (n<m) corner-first prefix pairs, "
+    "3 modes x max_grid_size 1..50 legacy vocabularies (duplicate-free, inverse map, row-major, prefix).",
+    "Longer sequences rely on the element-wise structure of encode/decode.", "5/C14")
+add("C16", "exploration",
+    "bounded-exhaustive enumeration of all member-length vectors, each member on its own grid size, every index, against list concatenation by object identity",
+    "All length vectors in {0..3}^<=4 (thorough {0..4}^<=5, 3905 vectors) incl. every zero pattern x 4 config constructions; every valid index checked by identity "
+    "against the concatenation (plus i=len), mazes / dataset_lengths / dataset_cum_lengths / cfg.n_mazes agreement before and after update_self_config.",
+    "Members hold small fixed mazes; negative / numpy indices not covered.", "5/C16")
+
 PLANNED = {}
 
 
